@@ -141,6 +141,33 @@ impl Index {
         if argv.len() != params.len() {
             bail!("macro {}: {} params, {} args", name, params.len(), argv.len());
         }
+        // the expansion stands for code only where the macro is actually invoked with these arguments: an item-position
+        // invocation `name!(args);` must exist in the file that defines it (exactly once)
+        {
+            let want = norm(args);
+            let mut n = 0;
+            fn scan(items: &[syn::Item], name: &str, want: &str, n: &mut usize) {
+                for it in items {
+                    match it {
+                        syn::Item::Macro(m) => {
+                            if m.mac.path.is_ident(name) && norm(&m.mac.tokens.to_string()) == want {
+                                *n += 1;
+                            }
+                        }
+                        syn::Item::Mod(md) => {
+                            if let Some((_, items)) = &md.content {
+                                scan(items, name, want, n);
+                            }
+                        }
+                        _ => {}
+                    }
+                }
+            }
+            scan(&f.ast.items, name, &want, &mut n);
+            if n != 1 {
+                bail!("lost anchor: the invocation {}!({}) occurs {} times in {}", name, args, n, f.path);
+            }
+        }
         let mut body = f.text[body_range.clone()].to_string();
         // longest names first so that $func does not clobber $function
         let mut order: Vec<usize> = (0..params.len()).collect();
@@ -183,6 +210,18 @@ impl Index {
     }
 
     pub fn locate(&self, locator: &str) -> Result<Found, Undecided> {
+        // alternatives `A || B`: the same function may be written in more than one way (through a macro, or by hand);
+        // the first form that is found is taken
+        if locator.contains(" || ") {
+            let mut last = None;
+            for alt in locator.split(" || ") {
+                match self.locate(alt) {
+                    Ok(f) => return Ok(f),
+                    Err(e) => last = Some(e),
+                }
+            }
+            return Err(last.unwrap());
+        }
         let mut loc = locator.trim().to_string();
         let mut nosig = false;
         if let Some(x) = loc.strip_suffix(" nosig") {
